@@ -303,7 +303,9 @@ func (fa *FuncAnalysis) mustReachPruned(from ssa.Instruction, targets []ssa.Inst
 				}
 				if g.Cond.Op == "binop" && g.Cond.Args[1].Op == "const" && g.Cond.Args[1].Name == "nil" &&
 					((g.Cond.Name == "!=" && g.Pos) || (g.Cond.Name == "==" && !g.Pos)) {
-					nn += "\x00" + g.Cond.Args[0].String() + "\x00"
+					if f := "\x00" + g.Cond.Args[0].String() + "\x00"; !strings.Contains(nn, f) {
+						nn += f
+					}
 				}
 			}
 			key := strconv.Itoa(s.Index) + "|" + nn
